@@ -239,6 +239,7 @@ theorem reach_flagged (C : Cfg) (w : WF C) : ∀ s, C05.ReachA C s → Flagged C
       ((List.range C.nets.length).filter (fun n => isMg C n))
       (((List.range C.nets.length).filter (fun n => !isMg C n)).foldl (fun s n => distLoopA C s n dt cm) ((List.range C.lines.length).foldl (fun s l => lineUpdate C s l dt) s))
     exact ⟨h1.1.congr (h3.2.trans h2.2) (h3.1.trans h2.1), by rw [h3.1, h2.1]; exact h1.2⟩
+  | spread s S _ ih => exact ⟨ih.1.congr rfl rfl, ih.2⟩
 
 
 private theorem lineUpdates_flagged (C : Cfg) (w : WF C) (dt : ℚ) (ls : List Nat) (hin : ∀ l ∈ ls, l < C.lines.length) (x : St)
